@@ -625,6 +625,59 @@ SCRIPTS = ["call_once", "call_twice", "unused_output", "load_unused", "const_twi
 
 
 def build(spec):
+    h = _build0(spec)
+    if spec.get("late") is not None:
+        # the module was exported (and serialised) once before it got its final shape: what is exported later
+        # must be the module as it is then
+        for f in (h.to_model, h.to_json):
+            try:
+                f()
+            except Exception:  # noqa: BLE001
+                pass
+        _late_edits(h, spec["late"])
+    return h
+
+
+def _late_edits(h, seed):
+    import random
+
+    from hugr import ops, tys
+    from hugr.build.dfg import Function
+
+    rng = random.Random(seed)
+    B = tys.Bool
+    nodes = list(h)
+    for _ in range(rng.randint(1, 3)):
+        x = rng.random()
+        if x < 0.35:
+            h[rng.choice(nodes)].metadata[f"late{rng.randrange(100)}"] = rng.choice([1, "s", [None, {"k": 2}]])
+        elif x < 0.7 and isinstance(h[h.root].op, ops.Module):
+            fn = Function.new_nested(ops.FuncDefn(f"late_fn{rng.randrange(1000)}", [B, B], []), h, h.root)
+            a, b = fn.inputs()
+            n1 = fn.add_op(ops.Custom("late_op", signature=tys.FunctionType([B], [B, B]), extension="verif"), a)
+            n2 = fn.add_op(ops.Noop(), b)
+            fn.add_state_order(n1, n2)
+            funcs = [n for n in nodes if isinstance(h[n].op, ops.FuncDecl) and not h[n].op.signature.params
+                     and list(h[n].op.signature.body.input) == [B] and list(h[n].op.signature.body.output) == [B]]
+            if funcs:
+                c = fn.call(rng.choice(funcs), n1[0])
+                fn.set_outputs(c[0], n2[0])
+            else:
+                fn.set_outputs(n1[0], n2[0])
+        else:
+            kids = [c for c in nodes if h[c].parent is not None and isinstance(h[h[c].parent].op, (ops.DFG, ops.FuncDefn))
+                    and isinstance(h[c].op, ops.DataflowOp) and not isinstance(h[c].op, (ops.Input, ops.Output))]
+            by_parent = {}
+            for c in kids:
+                by_parent.setdefault(h[c].parent, []).append(c)
+            groups = [v for v in by_parent.values() if len(v) >= 2]
+            if groups:
+                g = rng.choice(groups)
+                a, b = sorted(rng.sample(g, 2), key=lambda n: n.idx)
+                h.add_order_link(a, b)
+
+
+def _build0(spec):
     k = spec["kind"]
     if k == "c09":
         from props.C09 import build_module
@@ -1291,10 +1344,15 @@ def cases(rng, tier):
         n09, nown, ms = 600, 1500, 12
     if tier == "thorough":
         ms = 12
+    def late(sp):
+        if rng.random() < 0.25:
+            sp = {**sp, "late": rng.randrange(1 << 30)}
+        return sp
+
     for _ in range(n09):
-        yield {"kind": "c09", "seed": rng.randrange(1 << 30), "size": rng.randint(0, ms)}
+        yield late({"kind": "c09", "seed": rng.randrange(1 << 30), "size": rng.randint(0, ms)})
     for _ in range(nown):
-        yield _own_spec(rng, ms)
+        yield late(_own_spec(rng, ms))
 
 
 def shrink(spec, pred):
@@ -1313,6 +1371,10 @@ def shrink(spec, pred):
         s = {"kind": "script", "name": n}
         if ok(s):
             return s
+    if cur.get("late") is not None:
+        s = {k: v for k, v in cur.items() if k != "late"}
+        if ok(s):
+            cur = s
     changed = True
     while changed:
         changed = False
